@@ -7,6 +7,7 @@
 (*   "diamond" b1 b2 b3, l1 = merge(b1,b2), l2 = merge(b2,b3),             *)
 (*             top = merge(l1,l2), all run                                 *)
 (*   "synt"    b1 b2, l1 = synt(b1,b2; X1=X1) run, l2 = merge(l1,b1) run   *)
+(*   "stale"   chain, then b3 changed and announced, l2's source read-only *)
 (* The preset itself is a history (prefix) built with the same actions.    *)
 (* Structure and Fresh (C19 on the model) are TLC invariants.              *)
 (* Text edits are offered only where no constituent reaches an operation   *)
@@ -28,6 +29,7 @@ Apply(S, c) ==
     [] c.op = "ConnectNew" -> ConnectNew(S, c.p, c.s, c.n)
     [] c.op = "Edit" -> Edit(S, c.p, c.kind)
     [] c.op = "Save" -> Save(S, c.p)
+    [] c.op = "Lock" -> Lock(S, c.p)
     [] c.op = "InitFor" -> InitFor(S, c.p, c.type, c.table)
     [] c.op = "Execute" -> Execute(S, c.p, NewSrcOf, FALSE).S
     [] c.op = "ExecuteAll" -> ExecAll(S, SortedSeq(DOMAIN S.oper), 1, NewSrcOf)
@@ -39,15 +41,19 @@ IO(new, a, b) == [Op("InsertOperation") EXCEPT !.new = new, !.a = a, !.b = b]
 CN(p, s, n) == [Op("ConnectNew") EXCEPT !.p = p, !.s = s, !.n = n]
 IF_(p, t, tb) == [Op("InitFor") EXCEPT !.p = p, !.type = t, !.table = tb]
 EX(p) == [Op("Execute") EXCEPT !.p = p]
+ChainPrefix == <<IB(1), IB(2), IB(3), CN(1, 101, 1), CN(2, 102, 1), CN(3, 103, 1), IO(4, 1, 2), IO(5, 4, 3),
+                 IF_(4, "merge", -1), IF_(5, "merge", -1), EX(4), EX(5)>>
 Prefix ==
   CASE Preset = "empty" -> <<>>
     [] Preset = "chain" -> <<IB(1), IB(2), IB(3), CN(1, 101, 1), CN(2, 102, 1), CN(3, 103, 1), IO(4, 1, 2), IO(5, 4, 3),
                              IF_(4, "merge", -1), IF_(5, "merge", -1), EX(4), EX(5)>>
     [] Preset = "diamond" -> <<IB(1), IB(2), IB(3), CN(1, 101, 1), CN(2, 102, 2), CN(3, 103, 1), IO(4, 1, 2), IO(5, 2, 3), IO(6, 4, 5),
                                IF_(4, "merge", -1), IF_(5, "merge", -1), IF_(6, "merge", -1), EX(4), EX(5), EX(6)>>
+    \* "stale": the chain with b3 changed and announced (l2 outdated) and l2's result source read-only
+    [] Preset = "stale" -> ChainPrefix \o <<[Op("Edit") EXCEPT !.p = 3, !.kind = "addBase"], [Op("Save") EXCEPT !.p = 3], [Op("Lock") EXCEPT !.p = 5]>>
     [] Preset = "synt" -> <<IB(1), IB(2), CN(1, 101, 2), CN(2, 102, 1), IO(3, 1, 2), IF_(3, "synt", 1), EX(3), IO(4, 3, 1), IF_(4, "merge", -1), EX(4)>>
-PrefixPicts == CASE Preset = "empty" -> 0 [] Preset = "chain" -> 5 [] Preset = "diamond" -> 6 [] Preset = "synt" -> 4
-PrefixSrcs == CASE Preset = "empty" -> 100 [] Preset = "chain" -> 103 [] Preset = "diamond" -> 103 [] Preset = "synt" -> 102
+PrefixPicts == CASE Preset = "stale" -> 5 [] Preset = "empty" -> 0 [] Preset = "chain" -> 5 [] Preset = "diamond" -> 6 [] Preset = "synt" -> 4
+PrefixSrcs == CASE Preset = "stale" -> 103 [] Preset = "empty" -> 100 [] Preset = "chain" -> 103 [] Preset = "diamond" -> 103 [] Preset = "synt" -> 102
 
 Init == oss = ApplyAll(EmptyOSS, Prefix, 1) /\ hist = <<>> /\ nextPict = PrefixPicts + 1 /\ nextSrc = PrefixSrcs + 1
 Step(c) == oss' = Apply(oss, c) /\ hist' = Append(hist, c)
@@ -70,6 +76,8 @@ Next ==
      \/ /\ \E p \in DOMAIN oss.oper, t \in {<<"merge", -1>>, <<"synt", 0>>, <<"synt", 1>>, <<"synt", -1>>, <<"merge", 0>>} :
              (t[2] = 1 => BothBases(p)) /\ (t \in {<<"synt", -1>>, <<"merge", 0>>} => Structural) /\ Step(IF_(p, t[1], t[2]))
         /\ UNCHANGED <<nextPict, nextSrc>>
+     \/ /\ \E p \in DOMAIN oss.oper : HasData(oss, p) /\ ~DataOf(oss, p).locked /\ Preset \in {"chain", "stale"}
+             /\ Step([Op("Lock") EXCEPT !.p = p]) /\ UNCHANGED <<nextPict, nextSrc>>
      \/ /\ \E p \in DOMAIN oss.oper : Step(EX(p)) /\ UNCHANGED <<nextPict, nextSrc>>
      \/ /\ DOMAIN oss.oper # {} /\ Step(Op("ExecuteAll")) /\ UNCHANGED <<nextPict, nextSrc>>
 Spec == Init /\ [][Next]_vars
